@@ -111,7 +111,9 @@ def juniper_nonrandom_encrypt(plain: str, salt: str = None) -> str:
     Returns:
       String representing the encrypted secret.
     """
-    if salt is None:
+    if not salt or salt[0] not in EXTRA:
+        # No usable salt character (none given, empty, or outside the Juniper
+        # alphabet): fall back to the fixed one instead of raising
         salt = _fixedc(1)
     salt = salt[0]
     rand = _fixedc(EXTRA[salt])
